@@ -325,7 +325,7 @@ def run(pid, tier):
         # checkpoint and store only ever change in steps of the lock holder; readers never see a torn result
         mono = ('CONSTANTS Procs = {1, 2}\n Paths = {"af", "bf"}\n Cfg <- MCCfg\n Comp <- MCComp\n N = 2\n MaxRuns = 2\n'
                 ' MaxCommits = 2\n MaxEdits = 2\nSPECIFICATION Spec\nINVARIANTS AtMostOneHolder HolderIsPastLock ResultShowNeverTorn '
-                'RunCoversAffected AnalyzeNeverMixes CheckpointIsSnapshot\nPROPERTIES MutationsUnderLock\nCHECK_DEADLOCK FALSE\n')
+                'RunCoversAffected AnalyzeNeverMixes CpShowNeverMixes CheckpointIsSnapshot\nPROPERTIES MutationsUnderLock\nCHECK_DEADLOCK FALSE\n')
         r2 = vlib.tlc("mc/MCMonorail", mono, workers=10, timeout=3000, xmx="20g")
         if r2.violated:
             chk.model_violation("MCMonorail", r2)
